@@ -2,8 +2,8 @@ SPECIFICATION Spec
 CONSTANTS Writers = {1, 2}
  NChunks = 2
  InitKind = "different"
- InPlace = TRUE
- Faults = FALSE
- OnError = "report"
-INVARIANTS TargetIntact
+ InPlace = FALSE
+ Faults = TRUE
+ OnError = "inplace"
+INVARIANTS TargetIntact ReaderSeesComplete
 CHECK_DEADLOCK FALSE
